@@ -303,3 +303,42 @@ func jsonShape(n *types.Named) []string {
 	sort.Strings(out)
 	return out
 }
+
+// c14SameWireTag: the `tls` tag got declares the same wire layout as want — the clauses of the six
+// documented keys, parsed the way the codec parses them, give the same width, bounds, selector and
+// case value, whatever their order or spelling.  A clause with another key is judged by what the
+// codec does with it (rules_t8c09.go): one the codec does not test at all is ignored by it; one it
+// tests counts as absent exactly when it is an allocation hint (nothing accepted or emitted depends on
+// it); otherwise it is a bound the expected layout does not have.
+func c14SameWireTag(r *Run, got, want string) (bool, string) {
+	g, w := parseWireTag(got), parseWireTag(want)
+	if g != w {
+		return false, ""
+	}
+	verdicts := c09KeyVerdicts(r)
+	var hints []string
+	for _, part := range strings.Split(reflect.StructTag(got).Get("tls"), ",") {
+		k, _, ok := strings.Cut(part, ":")
+		if !ok {
+			continue
+		}
+		switch k {
+		case "maxval", "size", "maxlen", "minlen", "selector", "val":
+			continue
+		}
+		// the codec tells clauses apart by prefix
+		for key, v := range verdicts {
+			if !strings.HasPrefix(part, key) {
+				continue
+			}
+			if !v.hint {
+				return false, fmt.Sprintf(": the clause %q is read by the codec and is not a mere allocation hint (%s)", part, v.why)
+			}
+			hints = append(hints, part)
+		}
+	}
+	if len(hints) > 0 {
+		return true, fmt.Sprintf(" — same width and bounds; %v only sizes an allocation (C09.R3)", hints)
+	}
+	return true, ""
+}
